@@ -187,6 +187,13 @@ class Scenario:
                 ops.append((t_upd + v["browse_at"], lambda: start_browser("B/a", B, TA)))
                 ops.append((t_upd + v["unregister_after"], lambda: w.spawn(op_unregister(A, "S1"))))
                 checkpoints.append(t_upd + v["unregister_after"] + 300 + SETTLE_MS)
+            elif self.name == "idle":
+                # the browser has been running with nothing to refresh for 40 s when the service appears; ninety minutes
+                # later (pointer TTL: 75) the service is still registered and must still be reported
+                ops.append((0, lambda: start_browser("B/a", B, TA)))
+                ops.append((40_000, lambda: w.spawn(op_register(A, "S1", S1))))
+                checkpoints.append(40_000 + 800 + SETTLE_MS)
+                checkpoints.append(40_000 + 800 + SETTLE_MS + 5_400_000)
             elif self.name == "leave":
                 # the service is withdrawn (or its host closed) a few tens of milliseconds after a browser elsewhere started:
                 # the reply to the browser's first query and the goodbyes are on the link together
@@ -223,6 +230,10 @@ class Scenario:
                 t_op = 3300 + SETTLE_MS + 200
                 ops.append((t_op, lambda: w.spawn(op_unregister(A, "S1"))))
                 checkpoints.append(t_op + 300 + SETTLE_MS)
+                if v.get("long"):
+                    # ... and an hour and a half later (pointer TTLs are 75 minutes): what stayed registered must still
+                    # be reported, i.e. the browsers kept refreshing it
+                    checkpoints.append(t_op + 300 + SETTLE_MS + 5_400_000)
             events = sorted([(t, 0, k, fn) for k, (t, fn) in enumerate(ops)] +
                             [(t, 1, k, None) for k, t in enumerate(checkpoints)], key=lambda e: (e[0], e[1], e[2]))
             for t, kind, k, fn in events:
@@ -296,6 +307,8 @@ def plan(tier: str) -> List[Tuple[str, Dict[str, Any], int]]:
             ("leave", {"browse_at": 1850, "after": 450, "how": "close", "late": True, "qm": True}, 1),
             ("leave", {"browse_at": 5000, "after": 30, "how": "unregister", "late": True, "socks": "dual"}, 2),
             ("leave", {"browse_at": 5000, "after": 130, "how": "close", "late": True, "socks": "dual"}, 2),
+            ("idle", {"browse_at": 0}, 1),
+            ("three", {"browse_at": 500, "long": True}, 1), ("three", {"browse_at": 6000, "late": True, "long": True}, 1),
             # the same link with IPv6-only hosts, and with hosts that send on an IPv4 and an IPv6 socket (every datagram twice)
             ("unregister", {"browse_at": 0, "socks": "single6"}, 2), ("update-close", {"browse_at": 5000, "late": True, "socks": "single6"}, 2),
             ("unregister", {"browse_at": 1200, "late": True, "socks": "dual"}, 1), ("three", {"browse_at": 500, "socks": "dual"}, 1)]
@@ -312,7 +325,7 @@ def run(tier: str, seed: int) -> Tuple[Stats, str, List[str], Dict[str, Any]]:
             raise HarnessError(f"C07 scenario {name} is not deterministic")
         if a[0] is None and a[2] < 8:
             raise HarnessError(f"C07 scenario {name} is vacuous: {a[2]} datagrams in the default execution")
-        label = f"{name}/{variant['browse_at']}{'/late' if variant.get('late') else ''}{'/multi' if variant.get('multi') else ''}{'/' + variant['socks'] if variant.get('socks') else ''}{'/' + variant['how'] + '+' + str(variant['after']) if name == 'leave' else ''}{'/qm' if variant.get('qm') else ''}" + (
+        label = f"{name}/{variant['browse_at']}{'/late' if variant.get('late') else ''}{'/multi' if variant.get('multi') else ''}{'/' + variant['socks'] if variant.get('socks') else ''}{'/' + variant['how'] + '+' + str(variant['after']) if name == 'leave' else ''}{'/qm' if variant.get('qm') else ''}{'/long' if variant.get('long') else ''}" + (
             f"/unreg+{variant['unregister_after']}" if name == "churn" else "")
         done = explore_deviations(sc.run, bound, stats, label,
                                   max_execs=None if tier == "quick" else 1_500_000)
